@@ -1307,6 +1307,7 @@ pub fn gen_sched(rng: &mut Rng, mode: Mode) -> Sched {
 pub fn minimise(sc: &Scenario, class: &str, bins: &Bins, dir: &Path, known_crlf: bool) -> Scenario {
     // bounded: at most ~2 minutes of wall clock, shorter process time-out while shrinking a hang
     let deadline = Instant::now() + Duration::from_secs(120);
+    let expired = move || Instant::now() > deadline;
     if class == "no-return" {
         PROCESS_TIMEOUT_S.with(|t| t.set(4));
         CONFIRM_HANGS.with(|c| c.set(false));
@@ -1326,12 +1327,12 @@ pub fn minimise(sc: &Scenario, class: &str, bins: &Bins, dir: &Path, known_crlf:
         run(c, bins, dir, known_crlf).violation.map(|v| v.class == class).unwrap_or(false)
     };
     // remove items of a list in halving chunks first, then one by one
-    fn chunked<T: Clone>(items: &[T], min_len: usize, test: &dyn Fn(&[T]) -> bool) -> Vec<T> {
+    fn chunked<T: Clone>(items: &[T], min_len: usize, test: &dyn Fn(&[T]) -> bool, test_expired: &dyn Fn() -> bool) -> Vec<T> {
         let mut cur: Vec<T> = items.to_vec();
         let mut chunk = (cur.len() / 2).max(1);
         loop {
             let mut i = 0;
-            while i < cur.len() && cur.len() > min_len {
+            while i < cur.len() && cur.len() > min_len && !test_expired() {
                 let end = (i + chunk).min(cur.len());
                 if cur.len() - (end - i) < min_len {
                     i += chunk;
@@ -1345,7 +1346,7 @@ pub fn minimise(sc: &Scenario, class: &str, bins: &Bins, dir: &Path, known_crlf:
                     i += chunk;
                 }
             }
-            if chunk == 1 {
+            if chunk == 1 || test_expired() {
                 break;
             }
             chunk = (chunk / 2).max(1);
@@ -1354,6 +1355,9 @@ pub fn minimise(sc: &Scenario, class: &str, bins: &Bins, dir: &Path, known_crlf:
     }
     let mut cur = sc.clone();
     for _round in 0..3 {
+        if expired() {
+            break;
+        }
         let before = scenario_hash(&cur);
         if cur.patterns.len() > 8 {
             // all patterns through -f keeps the argument handling out of the way
@@ -1364,7 +1368,7 @@ pub fn minimise(sc: &Scenario, class: &str, bins: &Bins, dir: &Path, known_crlf:
                 c.patterns = ix.iter().map(|&i| base.patterns[i].clone()).collect();
                 c.p_count = ix.iter().filter(|&&i| i < base.p_count).count();
                 fails(&c)
-            });
+            }, &expired);
             cur.patterns = keep.iter().map(|&i| base.patterns[i].clone()).collect();
             cur.p_count = keep.iter().filter(|&&i| i < base.p_count).count();
         }
@@ -1375,7 +1379,7 @@ pub fn minimise(sc: &Scenario, class: &str, bins: &Bins, dir: &Path, known_crlf:
                     let mut c = base.clone();
                     c.files[f].1 = ls.to_vec();
                     fails(&c)
-                });
+                }, &expired);
                 cur.files[f].1 = keep;
             }
         }
@@ -1385,7 +1389,7 @@ pub fn minimise(sc: &Scenario, class: &str, bins: &Bins, dir: &Path, known_crlf:
                 let mut c = base.clone();
                 c.stdin_lines = ls.to_vec();
                 fails(&c)
-            });
+            }, &expired);
             cur.stdin_lines = keep;
         }
         // faults first: without them the failure is an input failure
@@ -1402,7 +1406,7 @@ pub fn minimise(sc: &Scenario, class: &str, bins: &Bins, dir: &Path, known_crlf:
             }
         }
         let mut i = 0;
-        while i < cur.sched.reads.len() {
+        while i < cur.sched.reads.len() && !expired() {
             let mut c = cur.clone();
             if c.sched.reads[i] != Act::Pass {
                 c.sched.reads[i] = Act::Pass;
@@ -1413,7 +1417,7 @@ pub fn minimise(sc: &Scenario, class: &str, bins: &Bins, dir: &Path, known_crlf:
             i += 1;
         }
         let mut i = 0;
-        while i < cur.sched.writes.len() {
+        while i < cur.sched.writes.len() && !expired() {
             let mut c = cur.clone();
             if c.sched.writes[i] != Act::Pass {
                 c.sched.writes[i] = Act::Pass;
@@ -1431,7 +1435,7 @@ pub fn minimise(sc: &Scenario, class: &str, bins: &Bins, dir: &Path, known_crlf:
         }
         // files
         let mut f = 0;
-        while f < cur.files.len() && cur.files.len() > 1 {
+        while f < cur.files.len() && cur.files.len() > 1 && !expired() {
             let mut c = cur.clone();
             c.files.remove(f);
             if fails(&c) { cur = c; } else { f += 1; }
@@ -1439,21 +1443,21 @@ pub fn minimise(sc: &Scenario, class: &str, bins: &Bins, dir: &Path, known_crlf:
         // lines
         for f in 0..cur.files.len() {
             let mut i = 0;
-            while i < cur.files[f].1.len() {
+            while i < cur.files[f].1.len() && !expired() {
                 let mut c = cur.clone();
                 c.files[f].1.remove(i);
                 if fails(&c) { cur = c; } else { i += 1; }
             }
         }
         let mut i = 0;
-        while i < cur.stdin_lines.len() {
+        while i < cur.stdin_lines.len() && !expired() {
             let mut c = cur.clone();
             c.stdin_lines.remove(i);
             if fails(&c) { cur = c; } else { i += 1; }
         }
         // patterns
         let mut i = 0;
-        while i < cur.patterns.len() && cur.patterns.len() > 1 {
+        while i < cur.patterns.len() && cur.patterns.len() > 1 && !expired() {
             let mut c = cur.clone();
             c.patterns.remove(i);
             if i < c.p_count {
@@ -1483,10 +1487,16 @@ pub fn minimise(sc: &Scenario, class: &str, bins: &Bins, dir: &Path, known_crlf:
         };
         for f in 0..cur.files.len() {
             for i in 0..cur.files[f].1.len() {
+                if expired() {
+                    break;
+                }
                 shrink(&mut cur, &|c: &mut Scenario| &mut c.files[f].1[i]);
             }
         }
         for i in 0..cur.stdin_lines.len() {
+            if expired() {
+                break;
+            }
             shrink(&mut cur, &|c: &mut Scenario| &mut c.stdin_lines[i]);
         }
         // flags
